@@ -7,11 +7,11 @@ def S(xs):
     return '{' + ', '.join('"%s"' % x for x in xs) + '}'
 
 
-def core(name, acts, maxn, adds, stack=0, und=0, rst=0, perm=3, invariants=True, probe=0, minn=0, initlive=99, **kw):
+def core(name, acts, maxn, adds, stack=0, und=0, rst=0, perm=3, invariants=True, probe=0, minn=0, initlive=99, undone=False, **kw):
     st = {
         'kind': 'gen_replay', 'name': name, 'module': 'Core', 'fam': 'core', 'spec': 'Spec', 'view': 'View',
         'constants': {'MaxN': maxn, 'MaxAdds': adds, 'MaxStack': stack, 'MaxUnd': und, 'MaxRst': rst,
-                      'Acts': S(acts), 'MaxPerm': perm, 'MaxProbe': probe, 'MinN': minn, 'InitLive': initlive},
+                      'Acts': S(acts), 'MaxPerm': perm, 'MaxProbe': probe, 'MinN': minn, 'InitLive': initlive, 'TrackUndone': 'TRUE' if undone else 'FALSE'},
         'invariants': ['TypeOK', 'RootCountOK', 'NodesOK'] if invariants else ['TypeOK'],
     }
     st.update(kw)
@@ -529,7 +529,7 @@ def drive(tier, histories=None, maxn=None, blocks=None):
     q = tier == 'quick'
     return {'kind': 'drive', 'name': 'drive', 'cmd': 'drive', 'trace_module': 'CoreTrace',
             'trace_cfg': {'invariants': ['TraceReport']},
-            'x': 'histories=%d,maxn=%d,blocks=%d' % (histories or (16 if q else 60), maxn or (40 if q else 64), blocks or (24 if q else 40)),
+            'x': 'histories=%d,maxn=%d,blocks=%d' % (histories or (24 if q else 400), maxn or (40 if q else 64), blocks or (24 if q else 40)),
             'timeout': 900 if q else 7200}
 
 
@@ -548,8 +548,8 @@ for _p in ('C01', 'C02', 'C06', 'C07', 'C08', 'C09', 'C10', 'C11'):
     PLAN[_p]['stages'] = (lambda f: (lambda tier, seed: f(tier, seed) + [drive(tier)]))(PLAN[_p]['stages'])
     PLAN[_p]['rule'] += DRIVE_RULE
     for _t in ('quick', 'thorough'):
-        PLAN[_p]['bounds'][_t] += ('; driver: 16 histories of 24 blocks up to 40 leaves' if _t == 'quick'
-                                   else '; driver: 60 histories of 40 blocks up to 64 leaves')
+        PLAN[_p]['bounds'][_t] += ('; driver: 24 histories of 24 blocks up to 40 leaves' if _t == 'quick'
+                                   else '; driver: 400 histories of 40 blocks up to 64 leaves')
 
 
 def verifier(name, maxn, claims, proofs, variant='fixed', invs=('SoundOK', 'CompleteOK', 'MinimalOK', 'DelOK'), **kw):
@@ -646,3 +646,19 @@ PLAN['C04']['rule'] = ('spec/VerifierLoop.tla models the control skeleton of the
                        'termination under weak fairness and a polynomial step bound for every input, and exhibits the lasso of the loop '
                        'as originally found (negative demonstration of the repaired defect). Atomic rejection is immediate in '
                        'spec/VerifierFun.tla (the update is a function of an accepted walk). Binding to the code: ' + PLAN['C04']['rule'])
+
+
+# C02 / C06: every (undone block, next block) pair continued and queried
+_c02c = PLAN['C02']['stages']
+PLAN['C02']['stages'] = lambda tier, seed: (
+    _c02c(tier, seed) +
+    [core('core_prove_after_undo', ['mod', 'prove', 'undo'], 4 if tier == 'quick' else 5, 2, stack=1, und=1, undone=True, invariants=False)])
+PLAN['C02']['bounds'] = {k: v + '; every (undone block, next block) pair followed by every Prove: n<=%d' % (4 if k == 'quick' else 5)
+                         for k, v in PLAN['C02']['bounds'].items()}
+
+_c06c = PLAN['C06']['stages']
+PLAN['C06']['stages'] = lambda tier, seed: (
+    _c06c(tier, seed) +
+    [core('core_undo_tracked', ['mod', 'undo'], 5 if tier == 'quick' else 6, 2, stack=1, und=1, undone=True)])
+PLAN['C06']['bounds'] = {k: v + '; every (undone block, next block) pair continued: n<=%d, adds 0..2' % (5 if k == 'quick' else 6)
+                         for k, v in PLAN['C06']['bounds'].items()}
